@@ -458,30 +458,41 @@ type CallAssert struct {
 }
 
 type FnContract struct {
-	Key       string // e.g. "encoding.(Sequence).Truncate", "encoding.RoundTimeUp", "core.(*limit).Iterate$1"
-	Pkg       string // short package dir ("encoding", "." for root)
-	File      string
-	Line      int
-	Extern    bool // assumed contract on a dependency (trusted)
-	Iface     bool // contract of an interface method
-	Params    []string // for extern/interface: explicit parameter names (receiver first as "this")
-	Lets      []struct{ Name string; E SExpr; Src string }
-	Requires  []Clause
-	Ensures   []Clause
-	GhostEns  []Clause // assumed at call sites, not checked in the body (definitional ghost updates)
-	Modifies  []ModItem
-	HasMod    bool
-	ModAll    bool
-	Pure      bool
-	PureHeap  bool
-	NoPanic   bool
-	NoPanicOwn bool // safety obligations for the function's own instructions only; callee panics are assumptions
-	Loops     map[int]*LoopSpec
+	Key    string // e.g. "encoding.(Sequence).Truncate", "encoding.RoundTimeUp", "core.(*limit).Iterate$1"
+	Pkg    string // short package dir ("encoding", "." for root)
+	File   string
+	Line   int
+	Extern bool     // assumed contract on a dependency (trusted)
+	Iface  bool     // contract of an interface method
+	Params []string // for extern/interface: explicit parameter names (receiver first as "this")
+	Lets   []struct {
+		Name string
+		E    SExpr
+		Src  string
+	}
+	Requires    []Clause
+	Ensures     []Clause
+	GhostEns    []Clause // assumed at call sites, not checked in the body (definitional ghost updates)
+	Modifies    []ModItem
+	HasMod      bool
+	ModAll      bool
+	Pure        bool
+	PureHeap    bool
+	NoPanic     bool
+	NoPanicOwn  bool // safety obligations for the function's own instructions only; callee panics are assumptions
+	Loops       map[int]*LoopSpec
 	CallAsserts []CallAssert
-	Asserts   []CallAssert // reserved
-	Covers    []Clause
-	Props     []string // property ids this contract serves (informational)
-	Used      bool
+	Asserts     []CallAssert // reserved
+	Covers      []Clause
+	Captures    []Capture
+	Props       []string // property ids this contract serves (informational)
+	Used        bool
+}
+
+// Capture binds a ghost name to result K of every call matching Pattern (also when the code discards it).
+type Capture struct {
+	Name, Sort, Pattern string
+	K                   int
 }
 
 type Define struct {
@@ -512,14 +523,14 @@ type ConstGlobal struct {
 
 type Contracts struct {
 	ConstGlobals map[string]*ConstGlobal // key: pkgKey + "." + name
-	Fns     map[string]*FnContract
-	Order   []string
-	Defines map[string]*Define
-	Lemmas  []*Lemma
-	Ghosts  map[string]*GhostVar
-	UFs     map[string]*UFDecl
-	Files   []string
-	Source  map[string]string // pkg -> "/repo" or "mirror"
+	Fns          map[string]*FnContract
+	Order        []string
+	Defines      map[string]*Define
+	Lemmas       []*Lemma
+	Ghosts       map[string]*GhostVar
+	UFs          map[string]*UFDecl
+	Files        []string
+	Source       map[string]string // pkg -> "/repo" or "mirror"
 }
 
 type UFDecl struct {
@@ -531,7 +542,7 @@ type UFDecl struct {
 var clauseKeywords = map[string]bool{
 	"func": true, "extern": true, "interface": true, "requires": true, "ensures": true, "let": true,
 	"modifies": true, "nopanic": true, "pure": true, "pureheap": true, "loop": true, "at": true, "ghost": true,
-	"define": true, "lemma": true, "const_global": true, "ghost_ensures": true, "cover": true, "props": true, "uf": true, "params": true,
+	"define": true, "lemma": true, "const_global": true, "capture": true, "ghost_ensures": true, "cover": true, "props": true, "uf": true, "params": true,
 }
 
 // parseContractFile reads the //@ lines of one file.
@@ -686,6 +697,14 @@ func (cs *Contracts) parseContractFile(path string, pkg string) error {
 			cur.HasMod = true
 			cur.ModAll = cur.ModAll || all
 			cur.Modifies = append(cur.Modifies, items...)
+		case "capture":
+			// capture name Sort = result K of call Pattern
+			if len(fs) != 9 || fs[3] != "=" || fs[4] != "result" || fs[6] != "of" || fs[7] != "call" {
+				return fail(fmt.Errorf("bad capture clause (capture name Sort = result K of call Pattern)"))
+			}
+			k := 0
+			fmt.Sscanf(fs[5], "%d", &k)
+			cur.Captures = append(cur.Captures, Capture{Name: fs[1], Sort: fs[2], Pattern: fs[8], K: k})
 		case "nopanic":
 			cur.NoPanic = true
 			if rest == "own" {
